@@ -391,6 +391,9 @@ int EGLPNUM_TYPENAME_ILLprice_build_mpartial_info (
 	EGLPNUM_TYPENAME_mpart_info *p;
 
 	p = (pricetype == COL_PRICING) ? &(pinf->pmpinfo) : &(pinf->dmpinfo);
+	/* the structure of an earlier start of the simplex (restart after a
+	 * numerical problem, next solve with the same pricing) is replaced */
+	EGLPNUM_TYPENAME_ILLprice_free_mpartial_info (p);
 	p->k = 50;
 	p->cgroup = 0;
 	nelems = (pricetype == COL_PRICING) ? lp->nnbasic : lp->nrows;
